@@ -41,6 +41,9 @@ pub struct SimSys {
     pub cont: bool,
     pub only_client: bool,
     pub only_net: bool,
+    /// how the trace text is written: 0 "s"/"r"; 1 "sn"/"rn"; 2 and 3 additionally interleave "sp"/"rp"
+    /// lines (padding packets of a recorded trace, which the parser ignores) at every packet time
+    pub trace_style: u8,
 }
 impl SimSys {
     pub fn new(trace: Vec<Pkt>, delay_ns: u64) -> Self {
@@ -59,10 +62,22 @@ impl SimSys {
             cont: true,
             only_client: false,
             only_net: false,
+            trace_style: 0,
         }
     }
     pub fn trace_text(&self) -> String {
-        self.trace.iter().map(|(t, s)| format!("{},{}", t, if *s { "s" } else { "r" })).collect::<Vec<_>>().join("\n")
+        let long = self.trace_style % 2 == 1;
+        let mut lines = vec![];
+        for (i, (t, s)) in self.trace.iter().enumerate() {
+            if self.trace_style >= 2 {
+                lines.push(format!("{},{}", t, if i % 2 == 0 { "sp" } else { "rp" }));
+            }
+            lines.push(format!("{},{}", t, match (*s, long) { (true, false) => "s", (true, true) => "sn", (false, false) => "r", (false, true) => "rn" }));
+            if self.trace_style >= 2 && i % 3 == 0 {
+                lines.push(format!("{},{}", t + 1, if *s { "rp" } else { "sp" }));
+            }
+        }
+        lines.join("\n")
     }
     pub fn network(&self) -> Network {
         Network::new(Duration::from_nanos(self.delay_ns), self.pps)
@@ -98,6 +113,8 @@ impl SimSys {
             "continue_after_all_normal_packets_processed": self.cont,
             "only_client_events": self.only_client,
             "only_network_activity": self.only_net,
+            "trace_style": self.trace_style,
+            "trace_text": self.trace_text(),
         })
     }
     pub fn from_json(v: &Value) -> Result<SimSys, String> {
@@ -119,6 +136,7 @@ impl SimSys {
         s.cont = v["continue_after_all_normal_packets_processed"].as_bool().unwrap_or(true);
         s.only_client = v["only_client_events"].as_bool().unwrap_or(false);
         s.only_net = v["only_network_activity"].as_bool().unwrap_or(false);
+        s.trace_style = v["trace_style"].as_u64().unwrap_or(0) as u8;
         Ok(s)
     }
 }
@@ -288,6 +306,35 @@ pub fn s_library(level: usize) -> Vec<Gadget> {
         }
     }
     lib.push(Gadget { name: "reblk(to3,dur2,NormalSent)".into(), m: gadget(NormalSent, Action::BlockOutgoing { bypass: false, replace: false, timeout: c(3.0), duration: c(2.0), limit: None }, Some(NormalSent), None), kind: 'b', zero_dur: false });
+    // one machine switching between two action kinds whose due instants coincide or cross
+    for (n1, a1, gapname, n2, a2) in [
+        ("pad3", Action::SendPadding { bypass: false, replace: false, timeout: c(3.0), limit: None }, "NormalSent", "blk2", Action::BlockOutgoing { bypass: false, replace: false, timeout: c(2.0), duration: c(2.0), limit: None }),
+        ("pad3", Action::SendPadding { bypass: false, replace: false, timeout: c(3.0), limit: None }, "NormalSent", "blk0", Action::BlockOutgoing { bypass: true, replace: false, timeout: c(0.0), duration: c(1.0), limit: None }),
+        ("blk3", Action::BlockOutgoing { bypass: false, replace: true, timeout: c(3.0), duration: c(2.0), limit: None }, "NormalSent", "pad2", Action::SendPadding { bypass: true, replace: false, timeout: c(2.0), limit: None }),
+        ("pad1", Action::SendPadding { bypass: false, replace: true, timeout: c(1.0), limit: None }, "TunnelRecv", "blk0", Action::BlockOutgoing { bypass: false, replace: false, timeout: c(0.0), duration: c(2.0), limit: None }),
+        ("blk7", Action::BlockOutgoing { bypass: false, replace: false, timeout: c(7.0), duration: c(1.0), limit: None }, "TunnelRecv", "pad0", Action::SendPadding { bypass: false, replace: false, timeout: c(0.0), limit: None }),
+    ] {
+        let ev = if gapname == "NormalSent" { NormalSent } else { TunnelRecv };
+        let mut t0: EnumMap<Event, Vec<Trans>> = enum_map! { _ => vec![] };
+        t0[NormalSent] = vec![Trans(1, 1.0)];
+        let mut t1: EnumMap<Event, Vec<Trans>> = enum_map! { _ => vec![] };
+        t1[ev] = vec![Trans(2, 1.0)];
+        let mut t2: EnumMap<Event, Vec<Trans>> = enum_map! { _ => vec![] };
+        t2[ev] = vec![Trans(1, 1.0)];
+        lib.push(Gadget { name: format!("switch({n1}->{n2},{gapname})"), m: mk((1_000_000, 1.0, 1_000_000_000, 1.0), vec![st_map(t0, None, (None, None)), st_map(t1, Some(a1), (None, None)), st_map(t2, Some(a2), (None, None))]), kind: 'r', zero_dur: false });
+    }
+    // a zero-timeout padding that the same packet's TunnelSent cancels (cancel at the due instant)
+    {
+        let mut t0: EnumMap<Event, Vec<Trans>> = enum_map! { _ => vec![] };
+        t0[NormalSent] = vec![Trans(1, 1.0)];
+        let mut t1: EnumMap<Event, Vec<Trans>> = enum_map! { _ => vec![] };
+        t1[TunnelSent] = vec![Trans(2, 1.0)];
+        let mut t2: EnumMap<Event, Vec<Trans>> = enum_map! { _ => vec![] };
+        t2[NormalSent] = vec![Trans(1, 1.0)];
+        for (tn, tk) in [("action", Timer::Action), ("all", Timer::All)] {
+            lib.push(Gadget { name: format!("pad0-cancelled-by-TunnelSent({tn})"), m: mk((1_000_000, 1.0, 0, 0.0), vec![st_map(t0.clone(), None, (None, None)), st_map(t1.clone(), Some(Action::SendPadding { bypass: false, replace: false, timeout: c(0.0), limit: None }), (None, None)), st_map(t2.clone(), Some(Action::Cancel { timer: tk }), (None, None))]), kind: 'c', zero_dur: false });
+        }
+    }
     // internal timers
     let tdurs: &[f64] = if level == 0 { &[0.0, 1.0, 2.0] } else { &[0.0, 1.0, 2.0, 5.0] };
     for &du in tdurs {
